@@ -427,6 +427,23 @@ def block_facts(ev, ctx, bb, unwind=False):
                         out.append(("no_ovf", c[1], c[2], c[3]))
                 else:
                     out.extend(bool_facts(c, bool(t["expected"])))
+    # saturating_sub(a, b) == 0 exactly when a <= b; != 0 (or 0 < it) exactly when b < a
+    for f in list(out):
+        if len(f) == 3 and f[0] in ("eq", "ne", "lt", "le"):
+            x = z = None
+            if f[0] in ("eq", "ne"):
+                for p_, q_ in ((f[1], f[2]), (f[2], f[1])):
+                    if q_ == ("int", 0):
+                        x, z = unref(p_), f[0]
+            elif f[0] == "lt" and f[1] == ("int", 0):
+                x, z = unref(f[2]), "ne"
+            elif f[0] == "le" and f[2] == ("int", 0):
+                x, z = unref(f[1]), "eq"
+            if x is not None and x[0] == "call" and x[1] == "saturating_sub" and len(x[2]) == 2:
+                a_, b_ = unref(x[2][0]), unref(x[2][1])
+                g = ("le", a_, b_) if z == "eq" else ("lt", b_, a_)
+                if g not in out:
+                    out.append(g)
     # antisymmetry: a <= b and b <= a give a == b (`while a > b {..}; if a < b {return}` leaves a == b)
     les = [(f[1], f[2]) for f in out if f[0] == "le" and len(f) == 3]
     nes = [(f[1], f[2]) for f in out if f[0] == "ne" and len(f) == 3]
